@@ -40,6 +40,8 @@ type MLCase struct {
 	Known        []string    `json:"known,omitempty"`
 	RealIDs      []string    `json:"real_ids,omitempty"`
 	RealPanicked bool        `json:"real_panicked"`
+	// the real function called repeatedly on the SAME input gave different results (a direct witness of order dependence)
+	Unstable string `json:"unstable,omitempty"`
 }
 
 func boolStr(b bool) string {
@@ -106,11 +108,26 @@ func maploops(seed uint64, n int, out string) {
 		for _, v := range bsctypes.VerifSnapshotValidators(vals) {
 			c.RealSorted = append(c.RealSorted, hlib.Hex(v[:]))
 		}
-		var res bool
-		if p, _ := hlib.Catch(func() { res = bsctypes.VerifSnapshotInturn(vals, c.Number, probe) }); p {
-			c.RealInturn = 2
-		} else if res {
-			c.RealInturn = 1
+		inturn := func() int {
+			var res bool
+			if p, _ := hlib.Catch(func() { res = bsctypes.VerifSnapshotInturn(vals, c.Number, probe) }); p {
+				return 2
+			} else if res {
+				return 1
+			}
+			return 0
+		}
+		c.RealInturn = inturn()
+		for rep := 0; rep < 12 && c.Unstable == ""; rep++ {
+			again := bsctypes.VerifSnapshotValidators(vals)
+			for j, v := range again {
+				if j >= len(c.RealSorted) || hlib.Hex(v[:]) != c.RealSorted[j] {
+					c.Unstable = "snapshot.validators() returned different slices for the same validator set"
+				}
+			}
+			if inturn() != c.RealInturn {
+				c.Unstable = "snapshot.inturn() returned different verdicts for the same validator set, number and validator"
+			}
 		}
 		o.Emit(c)
 	}
